@@ -129,14 +129,17 @@ def work(item):
     from orquestra.quantum.measurements import measurements as MM, expectation_values as EV, parities as PA
     from orquestra.quantum.circuits import layouts as LY
 
-    res.fn(
-        IO.convert_dict_to_op, IO.convert_op_to_dict, IO.save_operator, IO.load_operator, IO.save_operator_set, IO.load_operator_set,
-        PO.PauliTerm.__repr__, PO.PauliSum.__repr__, PO._parse_operators_and_coefficient, PO._parse_complex, PO._parse_operator,
-        PO.PauliTerm.from_iterable, PO.PauliSum.__add__, PO.PauliSum.simplify, UT.convert_array_to_dict, UT.convert_dict_to_array,
-        MM.Measurements.save, MM.Measurements.load_from_file, EV.ExpectationValues.to_dict, EV.ExpectationValues.from_dict,
-        PA.Parities.to_dict, PA.Parities.from_dict, UT.ValueEstimate.to_dict, UT.ValueEstimate.from_dict, UT.save_list, UT.load_list,
-        UT.save_nmeas_estimate, UT.load_nmeas_estimate, LY.CircuitLayers.from_dict, LY.CircuitConnectivity.from_dict,
-    )
+    try:  # evidence only: a renamed private helper must not break the check
+        res.fn(
+            IO.convert_dict_to_op, IO.convert_op_to_dict, IO.save_operator, IO.load_operator, IO.save_operator_set, IO.load_operator_set,
+            PO.PauliTerm.__repr__, PO.PauliSum.__repr__, PO._parse_operators_and_coefficient, PO._parse_complex, PO._parse_operator,
+            PO.PauliTerm.from_iterable, PO.PauliSum.__add__, PO.PauliSum.simplify, UT.convert_array_to_dict, UT.convert_dict_to_array,
+            MM.Measurements.save, MM.Measurements.load_from_file, EV.ExpectationValues.to_dict, EV.ExpectationValues.from_dict,
+            PA.Parities.to_dict, PA.Parities.from_dict, UT.ValueEstimate.to_dict, UT.ValueEstimate.from_dict, UT.save_list, UT.load_list,
+            UT.save_nmeas_estimate, UT.load_nmeas_estimate, LY.CircuitLayers.from_dict, LY.CircuitConnectivity.from_dict,
+        )
+    except AttributeError:
+        pass
     try:
         if kind == "dict":
             res.d["cuts"].append("numpy proxy in _pauli_operators (isclose exact-real, forked); complex-typed symbolic coefficient = complex subclass with symbolic parts")
